@@ -255,6 +255,7 @@ func (g *gen) genGlobals(n int) {
 func (g *gen) genInit() {
 	g.push()
 	c := g.enterFn(&Fn{T: &Type{K: KFunc}})
+	g.fnBase--
 	g.fnDepth = 0
 	old := g.budget
 	g.budget = 3
@@ -360,6 +361,7 @@ func (g *gen) genRecursive() {
 	g.declare(&Var{Name: d, T: tInt, RO: true})
 	g.declare(&Var{Name: acc, T: t})
 	c := g.enterFn(f)
+	g.fnBase--
 	g.fnDepth = 0
 	g.pure = true
 	g.pureBase = len(g.scopes) - 1
@@ -571,6 +573,7 @@ func genProgram(seed int64, size int, opts Opts) *Prog {
 	g.push()
 	f := &Fn{Name: "main", T: &Type{K: KFunc}}
 	c := g.enterFn(f)
+	g.fnBase--
 	g.fnDepth = 0
 	g.cost, g.mult = 0, 1
 	var kids []*Node
